@@ -1,5 +1,6 @@
 "C11 — extract finds exactly the abbreviation that ends at the caret"
 import re
+import os
 from hypothesis import strategies as st
 from vlib import core, abbr_model as M, abbr_gen as G, css_model as C, alphabets as A
 from vlib.core import guard
@@ -214,3 +215,27 @@ def run(ctx):
     ctx.exhaustive('every line of length ≤ %d over the 16-symbol alphabet %r × every caret −2..len+2 and None × 4 option sets (consistency)' % (L, ''.join(SMALL)))
     ctx.run_cases('roundtrip', FIXED_RT)
     ctx.run_parallel('shard_random', extra=(ctx.pick(150, 2000),))
+    if ctx.thorough or os.environ.get('VERIF_FUZZ'):
+        ctx.run_atheris('consistency', ctx.pick(3000, 40000))
+
+
+# coverage-guided layer (thorough tier), consistency clause: byte 0 = type / lookAhead / prefix, the rest is the line
+# (every caret −2..len+2 and None is tried by the check function itself)
+def _fz_cons(data):
+    if not data:
+        return None
+    from vlib.fuzz import text_of
+    b = data[0]
+    opts = {'type': 'stylesheet' if b & 1 else 'markup', 'lookAhead': not (b & 2)}
+    p = PREFIXES[(b >> 2) % len(PREFIXES)]
+    if p:
+        opts['prefix'] = p
+    return {'line': text_of(data[1:])[:80], 'opts': opts}
+
+
+def _fz_cons_seeds():
+    for i, l in enumerate(['<div>ul>li*3', 'a[href="x"]{txt}', 'foo >>>p.c#i', '<a href=x>b+i', 'x = (a+b)*2"]', 'm10-20', 'c#fc0', '<p class="a">em{t})']):
+        yield bytes([i * 4 % 256]) + l.encode('utf-8')
+
+
+FUZZ = {'consistency': {'decode': _fz_cons, 'seeds': _fz_cons_seeds, 'max_len': 40, 'dict': ['<div>', '</p>', '="', '>>>', '&&', '<%', 'e:', '->', '"]', '})', '[a=', '{t}']}}
